@@ -99,7 +99,7 @@ m = {
    'guard': 'nlnetlabs_routecore_verif',
    'enable': 'RUSTFLAGS="--cfg nlnetlabs_routecore_verif" (set by lib/core.py when building harness/ against /repo)',
    'baseline_off_cmd': 'cd /repo && cargo test --workspace --no-fail-fast --offline',
-   'source_commits': [],
+   'source_commits': ['a24dd59', '3c8bc06'],
    'add_only': True,
  },
  'engines': [
